@@ -78,7 +78,7 @@ class MsgSequencer(Logic):
         ret += '   end else if (state == 1) begin\n'
         ret += '      rv <= msg[count];\n'
         ret += '      rvalid <= 1;\n'
-        ret += '      if (ready == 1) begin\n'
+        ret += '      if (ready == 0) begin\n'
         ret += '             rvalid <= 1;\n'
         ret += '          end \n'
         ret += '      else begin\n'
